@@ -258,7 +258,13 @@ pub fn record_steps(input: &str, output: &str) -> i32 {
                 events += 1;
             }
             match r {
-                Ok(Ok(n)) => writeln!(w, "{}", json!({"ev":"ret","count":n,"data":data_to_val(&data)})).unwrap(),
+                Ok(Ok(n)) => {
+                    // on the wire to TLC a NaN is the integer -2147483647 (TLC cannot compare integers with strings)
+                    let wire: Vec<Vec<i64>> = data.iter().map(|t| t.0.iter().map(|x| {
+                        if x.is_nan() { -2147483647 } else { (x * UNIT) as i64 }
+                    }).collect()).collect();
+                    writeln!(w, "{}", json!({"ev":"ret","count":n,"data":wire})).unwrap()
+                }
                 other => writeln!(w, "{}", json!({"ev":"panic","msg":format!("{other:?}")})).unwrap(),
             }
             apps += 1;
